@@ -7,6 +7,7 @@ mod c04;
 mod c10;
 mod c11;
 mod c12;
+mod c14;
 mod c18;
 mod olpc;
 mod c20;
@@ -26,6 +27,7 @@ struct State {
     c11: Option<c11::Ctx>,
     life: Option<lifecycle::Ctx>,
     wire: Option<wire::Ctx>,
+    c14: Option<c14::Ctx>,
 }
 
 fn dispatch(st: &mut State, scn: &Value) -> Value {
@@ -38,6 +40,7 @@ fn dispatch(st: &mut State, scn: &Value) -> Value {
             st.verify.get_or_insert_with(|| verify::Ctx::new(&common::family(), &prop)).run(scn, ev, pin)
         }
         "C20" => c20::run(scn),
+        "C14" => st.c14.get_or_insert_with(c14::Ctx::new).run(scn),
         "C18" => c18::run(scn),
         "WIRE" => match scn["kind"].as_str().unwrap_or("") {
             "rule" => wire::run_rule(scn),
@@ -58,7 +61,7 @@ fn main() {
     let args: Vec<String> = std::env::args().collect();
     let cmd = args.get(1).map(|s| s.as_str()).unwrap_or("");
     common::quiet_panics();
-    let mut st = State { c04: None, verify: None, c11: None, life: None, wire: None };
+    let mut st = State { c04: None, verify: None, c11: None, life: None, wire: None, c14: None };
     let stdout = std::io::stdout();
     let mut out = std::io::BufWriter::new(stdout.lock());
     match cmd {
@@ -84,6 +87,8 @@ fn main() {
                 };
                 r["i"] = scn.get("i").cloned().unwrap_or(json!(i));
                 writeln!(out, "{}", r).unwrap();
+                // a crash of the process must not lose the results obtained so far
+                out.flush().unwrap();
             }
         }
         "record" => {
@@ -104,6 +109,7 @@ fn main() {
                     }
                 }
                 "C20" => c20::record(n, &mut out),
+                "C14mut" => writeln!(out, "{}", c14::mutate(n)).unwrap(),
                 "C19meta" => writeln!(out, "{}", wire::from_meta_checks(n)).unwrap(),
                 "C09bits" => writeln!(out, "{}", lifecycle::Ctx::new(&common::family()).all_bits(n)).unwrap(),
                 "C10all" => writeln!(out, "{}", c10::all_scalars(n.max(1) as u32)).unwrap(),
